@@ -125,6 +125,7 @@ func (p *preprocessor) worker(workerID string) {
 		case seed, ok := <-p.inputCh:
 			if ok {
 				logger.Debug("received seed", "seed", seed.GetShortID())
+				verifhook.At("preprocessor.received", seed.GetID())
 
 				if err := seed.CheckConsistency(); err != nil {
 					panic(fmt.Sprintf("seed consistency check failed with err: %s, seed id %s, worker_id %s", err.Error(), seed.GetShortID(), workerID))
